@@ -904,9 +904,12 @@ class BaseOutlineCompiler:
         vorg.majorVersion = 1
         vorg.minorVersion = 0
         vorg.VOriginRecords = {}
-        # Find the most frequent verticalOrigin
+        # Find the most frequent verticalOrigin. Count in glyph order, so that a tie
+        # is not decided by the iteration order of the glyph set, which depends on how
+        # the font was built or loaded.
         vorg_count = Counter(
-            _getVerticalOrigin(self.otf, glyph) for glyph in self.allGlyphs.values()
+            _getVerticalOrigin(self.otf, self.allGlyphs[glyphName])
+            for glyphName in self.glyphOrder
         )
         vorg.defaultVertOriginY = vorg_count.most_common(1)[0][0]
         if len(vorg_count) > 1:
